@@ -90,6 +90,28 @@ class Tagged(Transform, TagMixin):
         return sympool.s151(image)
 
 
+# fields with two stacked annotations (functions defined in class bodies are found again by their qualified name)
+from connectome import meta, optional  # noqa
+
+
+class Annotated(Transform):
+    __inherit__ = True
+
+    @optional
+    @meta
+    def n_parts():
+        return sympool.s152()
+
+    @meta
+    @optional
+    def n_items():
+        return sympool.s153()
+
+    @optional
+    def both(image):
+        return sympool.s154(image)
+
+
 # a constructor argument that is not hashable (it defines __eq__) and whose repr hides the field that matters
 class Cfg:
     def __init__(self, hidden):
